@@ -184,10 +184,18 @@ def uniformReal (a b u : α) : α := (b - a) * u + a
 /-- `RNG::gaussian(mean, stddev)`: `gaussian01() * stddev + mean` -/
 def gaussian (mean sd g : α) : α := g * sd + mean
 
-/-- `RNG::uniformInt(lo, hi)`: `r = (int)floor(uniformReal(lo, hi + 1.0)); (r > hi) ? hi : r` -/
+/-- `RNG::uniformInt(lo, hi)` as fixed by ebb35683a (finding F165):
+`const double r = floor(uniformReal(lo, hi + 1.0)); return (r > (double)hi) ? hi : (int)r;` — the clamp is taken in
+`double`, BEFORE the cast.  (Before the fix the cast came first: `(int)floor(2147483648.0)` is undefined for
+`hi = INT_MAX`.  With the model's unbounded `Int` both forms give the same value; the order is kept as coded.) -/
 def uniformInt (lo hi : Int) (u : α) : Int :=
-  let r := Num.toInt (Num.floor (uniformReal (Num.ofInt lo) (Num.ofInt hi + Num.ofNat 1) u))
-  if hi < r then hi else r
+  let r := Num.floor (uniformReal (Num.ofInt lo) (Num.ofInt hi + Num.ofNat 1) u)
+  if Num.ofInt hi < r then hi else Num.toInt r
+
+/-- seeded change s4 (not the code): `uniformInt` without its final clamp, kept for the witness
+`uniformInt_without_clamp_exceeds` and for the driver's executed witness at `Float` -/
+def uniformIntNoClamp (lo hi : Int) (u : α) : Int :=
+  Num.toInt (Num.floor (uniformReal (Num.ofInt lo) (Num.ofInt hi + Num.ofNat 1) u))
 
 /-! ### R^n samplers -/
 def rvUniform (R : Rng α) : List α → List α → Nat → List α
